@@ -313,16 +313,41 @@ theorem expanded_fork_safe (c c' : Cfg) (s0 : St) (evs evs' : List Ev) (disk : L
     ∀ d ∈ (run c' (cloneFork (run c s0 evs) disk) evs').removed, isTmp d.kind = false →
       ∀ a h, Holds (cloneFork (run c s0 evs) disk) a h → refs c' a d.path = true →
         ∃ n, h = some n ∧ n ∈ (run c' (cloneFork (run c s0 evs) disk) evs').doneNodes := by
-  obtain ⟨_, r⟩ := joint_run ok wf hv (XInv.init s0 fr h0) (RInv.init c s0 fr bk hf) evs
+  obtain ⟨_, r⟩ := joint_run ok wf hv bk (XInv.init s0 fr h0) (RInv.init c s0 fr bk hf) evs
   refine ⟨?_, ?_⟩
   · intro a h hh
     exact r.sh.holds a h ((cloneFork_holds _ disk a h).mp hh)
   · exact kill_safe c' (cloneFork (run c s0 evs) disk) evs' ok' ⟨rfl, rfl⟩ hv'
 
-/-- `cloneFork` (dynamic fork expansion) hands the new fork the same holder sets. -/
-theorem clone_keeps_holders (s : St) (disk : List DiskEnt) :
-    (∀ a h, Holds (cloneFork s disk) a h ↔ Holds s a h) ∧ Fresh (cloneFork s disk) :=
-  ⟨fun a h => cloneFork_holds s disk a h, ⟨rfl, rfl⟩⟩
+/-- **construction_well_ordered.**  The hypothesis `wfOps` of the construction
+theorems follows from the shape of the call graph (`Scoped`: node ids are
+new when the node is constructed; the file references of inputs, the
+top-level return and the retains point to nodes constructed before). -/
+theorem construction_well_ordered (tr : PTree) (a : List Node) (sc : Scoped [] tr a) :
+    wfOps [] [] (opsOf tr) = true :=
+  wfOps_of_scoped sc
+
+/-- `Scoped` is decided by `scopedB` (evaluated by the driver for every pipestance built). -/
+theorem scoped_decided (tr : PTree) (a : List Node) (h : scopedB [] tr = some a) : Scoped [] tr a :=
+  scopedB_sound tr [] a h
+
+/-- `args_present_at_start_built` from the shape of the call graph alone. -/
+theorem args_present_at_start_scoped (tr : PTree) (known : List Node) (sc : Scoped [] tr known) (n : Node)
+    (ins : List Binding) (hs : HasStage tr n ins) (b : Binding) (hb : b ∈ ins) (p : Node) (a : Arg)
+    (hr : (p, a, true) ∈ typedRefs b.1 b.2) :
+    ∃ t, (p, t) ∈ build (opsOf tr) ∧
+      ∀ (c : Cfg) (disk : List DiskEnt) (evs : List Ev), CfgOK c (t.st disk) → c.volatile = true →
+        n ∉ (run c (t.st disk) evs).doneNodes →
+        ∀ d ∈ disk, isTmp d.kind = false → refs c a d.path = true → d ∈ (run c (t.st disk) evs).disk :=
+  args_present_at_start_built tr (wfOps_of_scoped sc) n ins hs b hb p a hr
+
+/-- Whatever a binding delivers names only files among `reach env e` — the
+names in the recorded values of the outputs it references; the driver
+evaluates `reach` against the `_args` of real jobs (every file name in a
+delivered argument must be in it). -/
+theorem delivered_names_reachable (env : Env) (e : BExp) (v : Val) (h : Delivers env false e v) :
+    ∀ s ∈ v.names, s ∈ reach env e :=
+  delivers_reach h
 
 /-! ### consumers that fail and are retried -/
 
@@ -391,7 +416,84 @@ theorem args_present_at_start_pipestance (fs : List PFork) (evs : List GEv) (f :
     · obtain ⟨m, e, hm⟩ := i.safe d h1 ht a h hh hr
       exact absurd hm (hn m e)
 
+/-- **args_present_at_start_tree.**  The product system instantiated with what
+the construction builds: for a scoped node tree `tr`, the forks
+`build (opsOf tr)` of ALL its nodes side by side (each with its own
+configuration and files), under every global history: as long as the
+consuming stage `n` — a node of the same tree — has not completed (no global
+`nodeDone n`), everything a file-typed reference `p.a` of one of its resolved
+inputs references is still among the files of `p`'s fork in the product.
+(The forks' disks are separate entry lists by construction of the model — a
+fork's passes filter its own list; a shared file system is not modelled.) -/
+theorem args_present_at_start_tree (tr : PTree) (known : List Node) (sc : Scoped [] tr known)
+    (cfg : Node → Cfg) (disk : Node → List DiskEnt) (evs : List GEv) (n : Node) (ins : List Binding)
+    (hs : HasStage tr n ins) (b : Binding) (hb : b ∈ ins) (p : Node) (a : Arg)
+    (hr : (p, a, true) ∈ typedRefs b.1 b.2) :
+    ∃ t, (p, t) ∈ build (opsOf tr) ∧
+      (CfgOK (cfg p) (t.st (disk p)) → (cfg p).volatile = true →
+        GEv.nodeDone n ∉ evs → GEv.fork p (.nodeDone n) ∉ evs →
+        ∃ f' ∈ grun ((build (opsOf tr)).map fun pt => (⟨pt.1, cfg pt.1, pt.2.st (disk pt.1)⟩ : PFork)) evs,
+          f'.id = p ∧ ∀ d ∈ disk p, isTmp d.kind = false → refs (cfg p) a d.path = true → d ∈ f'.st.disk) := by
+  obtain ⟨t, ht, _, hh, _⟩ := consumer_registered tr (wfOps_of_scoped sc) n ins hs b hb p a hr
+  refine ⟨t, ht, ?_⟩
+  intro ok hv hg hl
+  have hf : (⟨p, cfg p, t.st (disk p)⟩ : PFork) ∈
+      (build (opsOf tr)).map fun pt => (⟨pt.1, cfg pt.1, pt.2.st (disk pt.1)⟩ : PFork) :=
+    List.mem_map.mpr ⟨(p, t), ht, rfl⟩
+  apply args_present_at_start_pipestance _ evs ⟨p, cfg p, t.st (disk p)⟩ hf ok ⟨rfl, rfl⟩ hv a (some n) (hh (disk p))
+  intro m e hm
+  cases e
+  rcases run_done (cfg p) (t.st (disk p)) (proj p evs) n hm with h | h
+  · cases h
+  · rcases mem_proj h with ⟨m, e1, e2⟩ | h2
+    · cases e1; exact hg e2
+    · exact hl h2
+
+/-! ### definitional unfoldings (documentation of the model, not guarantees) -/
+
+/-- `cloneFork` copies the two tables (by definition of the model: a value copy; that the
+real copy does not share Go maps with the original is probed on real forks, not proved). -/
+theorem clone_keeps_holders (s : St) (disk : List DiskEnt) :
+    (∀ a h, Holds (cloneFork s disk) a h ↔ Holds s a h) ∧ Fresh (cloneFork s disk) :=
+  ⟨fun a h => cloneFork_holds s disk a h, ⟨rfl, rfl⟩⟩
+
 /-! ### non-vacuity -/
+
+/-- a nested tree: `TOP` calls `P`, the sub-pipeline `SUB` (not top-level, retaining `P.keep`)
+with the consumers `C1` (bound to a split of `P.xs`) and `C2` (bound to the struct field
+`P.bag.f` inside a struct literal, and to the integer `P.bag.n`), and returns `SUB.C2.o` -/
+def bigTree : PTree :=
+  .pipe "TOP" true []
+    (.stage "P" [] []
+      (.pipe "SUB" false []
+        (.stage "C1" [(.split false (.ref "P" "xs"), .prim true)] []
+          (.stage "C2" [(.map (.cons "f" (.ref "P" "bag.f") (.cons "n" (.ref "P" "bag.n") .nil)),
+                          .struct (.mcons "f" (.prim true) (.mcons "n" (.prim false) .mnil)))] [] .nil))
+        [] [("P", "keep")] .nil))
+    [(.map (.cons "o" (.ref "C2" "o") .nil), .struct (.mcons "o" (.prim true) .mnil))] [] .nil
+
+/-- the nested tree is scoped; `P` gets both consumers, the pipeline-level retain and not the
+integer projection; and a run on the BUILT table of `P`: `bag.f`'s file stays while `C2` has
+not completed — through a restart — and goes afterwards, `keep`'s file stays -/
+example :
+    (scopedB [] bigTree).isSome = true ∧
+    HasStage bigTree "C2" [(.map (.cons "f" (.ref "P" "bag.f") (.cons "n" (.ref "P" "bag.n") .nil)),
+                          .struct (.mcons "f" (.prim true) (.mcons "n" (.prim false) .mnil)))] ∧
+    HasRetain bigTree "P" "keep" ∧
+    ((build (opsOf bigTree)).lookup "P").map (·.fileArgs) =
+      some [("xs", [some "C1"]), ("bag.f", [some "C2"]), ("keep", [none])] ∧
+    (let t := ((build (opsOf bigTree)).lookup "P").getD {}
+     let c : Cfg := { volatile := true, strict := true, splits := false
+                      argNames := [("xs", ["/p/f/x0".toList]), ("bag.f", ["/p/f/b".toList]), ("keep", ["/p/f/k".toList])]
+                      argFiles := [("xs", ["/p/f/x0".toList]), ("bag.f", ["/p/f/b".toList]), ("keep", ["/p/f/k".toList])]
+                      initArgs := t.fileArgs, initPost := t.postNodes }
+     let s := t.st [⟨"/p/f/x0".toList, 1, .out, []⟩, ⟨"/p/f/b".toList, 2, .out, []⟩, ⟨"/p/f/k".toList, 3, .out, []⟩,
+                    ⟨"/p/f/junk".toList, 4, .out, []⟩]
+     (run c s [.removeEmpty, .cacheMap, .kill, .nodeDone "C1", .restart, .kill]).disk.map (·.path) =
+       ["/p/f/b".toList, "/p/f/k".toList] ∧
+     (run c s [.removeEmpty, .cacheMap, .kill, .nodeDone "C1", .restart, .kill, .nodeDone "C2", .kill]).disk.map (·.path) =
+       ["/p/f/k".toList]) := by
+  refine ⟨by decide, .child (.next (.child (.next .here))), .child (.next (.pipe (by simp))), by decide, by decide⟩
 
 /-- two forks, interleaved: the completion of `C` is seen by both -/
 example :
@@ -415,6 +517,9 @@ example :
     ((build (opsOf exTree)).lookup "A").map (·.postNodes) = some [("B", ["o"])] ∧
     ((build (opsOf exTree)).lookup "B").map (·.fileArgs) = some [("o", [none])] := by
   refine ⟨by decide, .child (.next .here), .child (.stage (by simp)), by decide, by decide, by decide⟩
+
+/-- the example tree is scoped -/
+example : scopedB [] exTree = some ["TOP", "B", "A"] := by decide
 
 /-- delivery: a split of a reference delivers an element of what a fork produced, a merge collects -/
 example :
@@ -443,7 +548,7 @@ example :
 
 /-- the hypotheses of `kill_safe` are satisfiable -/
 example : CfgOK exCfg exSt ∧ Fresh exSt ∧ exCfg.volatile = true := by
-  refine ⟨⟨?_, ?_, ?_⟩, ⟨rfl, rfl⟩, rfl⟩
+  refine ⟨⟨?_, ?_, ?_, ⟨rfl, rfl⟩⟩, ⟨rfl, rfl⟩, rfl⟩
   · intro a h
     exact h
   · intro a f hf
